@@ -259,6 +259,12 @@ int KSI_TlvElement_serialize(const KSI_TlvElement *element, unsigned char *buf, 
 	}
 
 
+	/* The length field is 16 bits wide. */
+	if ((opt & KSI_TLV_OPT_NO_HEADER) == 0 && dat_len > 0xffff) {
+		res = KSI_BUFFER_OVERFLOW;
+		goto cleanup;
+	}
+
 	/* Calculate the header length. */
 	hdr_len = HDR_LEN(element->ftlv.tag, dat_len);
 
